@@ -257,6 +257,30 @@ def ops_for(a, m):
             c.bonds.add_bond(0, m.n() - 1, 5)
         return a, m
     ops.append(("copy, then mutate the copy", cp))
+    def atom_edit(a, m):
+        # an extracted Atom is a value of its own: editing it must not write through into the container
+        at = a[0, m.n() - 1] if m.stack else a[m.n() - 1]
+        at.coord[0] = 555.0
+        at.res_id = -77
+        c = at.copy()
+        c.coord[1] = 444.0
+        if at.coord[1] == 444.0:
+            return "Atom.copy() shares its coordinates with the original", None
+        return a, m
+    ops.append(("extract an atom, edit it", atom_edit))
+    def swap(a, m):
+        if m.stack or m.n() < 2:
+            return a, None
+        a = a.copy()
+        x, y = a[0], a[m.n() - 1]
+        a[0] = y
+        a[m.n() - 1] = x
+        m2 = m.copy()
+        for k in m2.ann:
+            m2.ann[k][0], m2.ann[k][-1] = m2.ann[k][-1], m2.ann[k][0]
+        m2.coord[0][0], m2.coord[0][-1] = m2.coord[0][-1], m2.coord[0][0]
+        return a, m2
+    ops.append(("swap the first and the last atom through Atom objects", swap))
     return ops
 
 
@@ -274,6 +298,8 @@ def run_histories(stack, depth):
 
             def step():
                 a2, m2 = f(a, m)
+                if isinstance(a2, str):
+                    return a2
                 if m2 is None:
                     return None
                 res["a"], res["m"] = a2, m2
